@@ -42,7 +42,8 @@ def parse_position_marker_arg(
             dec_part_raw_stripped = decimal_parts[0].rstrip("0")  # strip 0s off the decimal places
             dec_part = int(dec_part_raw_stripped if dec_part_raw_stripped != "" else "0")
         elif len(decimal_parts) == 2:  # XXXXX.YYYYY
-            pos = int(decimal_parts[0] if decimal_parts[0] != "" else "0")
+            # (the part in front of the point may be empty or just a sign: `.5`, `-.5`)
+            pos = int(decimal_parts[0] if decimal_parts[0] not in ("", "-", "+") else decimal_parts[0] + "0")
             dec_part_raw_stripped = decimal_parts[1].rstrip("0")  # strip 0s off the decimal places
             dec_part = int(dec_part_raw_stripped if dec_part_raw_stripped != "" else "0")
         else:
